@@ -54,6 +54,9 @@ type ExploreResult struct {
 	FeasQ       int
 	AssertQ     int
 	FmtApprox   int
+	LocalSat    int
+	WaitT, RunT time.Duration
+	LocalUnsat  int
 	Funcs       map[string]int
 	Wall        time.Duration
 	MaxDepth    int
@@ -69,6 +72,7 @@ func Explore(p *Program, cfg ExploreConfig) *ExploreResult {
 	stop := false
 	total := 0
 	violSeen := map[string]bool{}
+	var waitT, runT time.Duration
 
 	worker := func(id int) {
 		ex := NewExec(p, cfg.SolverMs)
@@ -79,10 +83,12 @@ func Explore(p *Program, cfg ExploreConfig) *ExploreResult {
 			ex.maxSteps = cfg.MaxSteps
 		}
 		for {
+			tw := time.Now()
 			mu.Lock()
 			for len(stack) == 0 && active > 0 && !stop {
 				cond.Wait()
 			}
+			waitT += time.Since(tw)
 			if stop || (len(stack) == 0 && active == 0) {
 				mu.Unlock()
 				cond.Broadcast()
@@ -93,9 +99,12 @@ func Explore(p *Program, cfg ExploreConfig) *ExploreResult {
 			active++
 			mu.Unlock()
 
+			tr := time.Now()
 			pr := ex.RunPath(cfg.Entry, item)
+			dr := time.Since(tr)
 
 			mu.Lock()
+			runT += dr
 			active--
 			total++
 			res.Outcomes[pr.Outcome]++
@@ -171,6 +180,8 @@ func Explore(p *Program, cfg ExploreConfig) *ExploreResult {
 		res.FeasQ += ex.Feasibility
 		res.AssertQ += ex.AssertQ
 		res.FmtApprox += ex.fmtApprox
+		res.LocalSat += ex.localSat
+		res.LocalUnsat += ex.localUnsat
 		for k, v := range ex.funcs {
 			res.Funcs[k] += v
 		}
@@ -196,6 +207,7 @@ func Explore(p *Program, cfg ExploreConfig) *ExploreResult {
 	}
 	wg.Wait()
 	res.Wall = time.Since(start)
+	res.WaitT, res.RunT = waitT, runT
 	sort.Slice(res.Violations, func(i, j int) bool { return res.Violations[i].ID < res.Violations[j].ID })
 	return res
 }
